@@ -25,6 +25,8 @@ def fn_ids():
 
 
 def enc(v: Any) -> str:
+    if isinstance(v, Raw):
+        return str(v)
     if isinstance(v, bool):
         return "1" if v else "0"
     if isinstance(v, int):
@@ -85,6 +87,29 @@ def dec(s: str):
     return stack[0][0]
 
 
+def _unlimit_stack():
+    import resource
+    try:
+        resource.setrlimit(resource.RLIMIT_STACK, (resource.RLIM_INFINITY, resource.RLIM_INFINITY))
+    except Exception:
+        pass
+
+
+def enc_image(data: bytes) -> str:
+    """sparse encoding of a (mostly zero) image for the model: (len (off (bytes)) ...)"""
+    out = [str(len(data))]
+    i, n = 0, len(data)
+    mv = memoryview(data)
+    import re as _re
+    for m in _re.finditer(rb"[^\x00]+(?:\x00{1,15}[^\x00]+)*", data):
+        out.append("(%d (%s))" % (m.start(), " ".join(map(str, m.group()))))
+    return "(" + " ".join(out) + ")"
+
+
+class Raw(str):
+    """an argument that is already encoded"""
+
+
 def call_batch(fn: str, args: List[Any], chunk: int = 20000) -> List[Any]:
     """Evaluate model function `fn` on every argument (one driver process per chunk)."""
     fid = fn_ids()[fn]
@@ -92,7 +117,7 @@ def call_batch(fn: str, args: List[Any], chunk: int = 20000) -> List[Any]:
     for i in range(0, len(args), chunk):
         lines = "".join("%d %s\n" % (fid, enc(a)) for a in args[i:i + chunk])
         p = subprocess.run([DRIVER], input=lines.encode(), stdout=subprocess.PIPE,
-                           stderr=subprocess.PIPE, timeout=1800)
+                           stderr=subprocess.PIPE, timeout=1800, preexec_fn=_unlimit_stack)
         if p.returncode != 0:
             raise RuntimeError("model driver failed: " + p.stderr.decode()[:500])
         res = p.stdout.decode().splitlines()
@@ -107,7 +132,7 @@ def call_mixed(calls: List[tuple]) -> List[Any]:
     ids = fn_ids()
     lines = "".join("%d %s\n" % (ids[f], enc(a)) for f, a in calls)
     p = subprocess.run([DRIVER], input=lines.encode(), stdout=subprocess.PIPE,
-                       stderr=subprocess.PIPE, timeout=1800)
+                       stderr=subprocess.PIPE, timeout=1800, preexec_fn=_unlimit_stack)
     if p.returncode != 0:
         raise RuntimeError("model driver failed: " + p.stderr.decode()[:500])
     return [dec(r) for r in p.stdout.decode().splitlines()]
